@@ -486,6 +486,11 @@ def concatenate(samplesets, defaults=None):
     record = recfunctions.stack_arrays(records, defaults=defaults,
                                        asrecarray=True, usemask=False)
 
+    if record is first.record:
+        # stack_arrays returns its input when given a single array, but we
+        # always want to return a new sample set
+        record = record.copy()
+
     return SampleSet(record, variables, {}, vartype)
 
 
